@@ -444,19 +444,34 @@ def orderOf (fields : List String) (borrower owner : String) : List Field :=
 
 /-- Storage types that are heap allocations whose address does not change when the owning handle
 moves. -/
-def heapStorageTypes : List String := ["Box<[OsuObject]>", "Vec<RefCount<TaikoDifficultyObject>>"]
+def heapStorageTypes : List String :=
+  ["Box<[OsuObject]>", "NonNull<[OsuObject]>", "Vec<RefCount<TaikoDifficultyObject>>"]
+
+/-- `Drop` impls that have been reviewed as "frees exactly the heap block its storage field owns and
+dereferences nothing else" — (impl header, statements of `fn drop`).  `OsuObjects` owns its allocation
+through `NonNull<[OsuObject]>` (from `Box::leak`) since `fix: OsuGradualDifficulty owns its objects
+through a raw pointer …`; its `Drop` rebuilds the `Box` and drops it, which is what the model's drop of
+the owner field does (free the block). -/
+def reviewedDrops : List (String × String) :=
+  [("src/osu/difficulty/gradual.rs: impl Drop for OsuObjects",
+    "drop(unsafe\x20{ Box::from_raw(self.objects.as_ptr()) });")]
+
+/-- Storage types that are raw pointers: they free their block only through a reviewed `Drop` impl. -/
+def rawStorageTypes : List (String × String) :=
+  [("NonNull<[OsuObject]>", "src/osu/difficulty/gradual.rs: impl Drop for OsuObjects")]
 
 /-- Borrower types whose pointers sit in a heap block of their own. -/
 def boxedBorrowerTypes : List String := ["Box<[OsuDifficultyObject<'static>]>"]
 
 /-- The layout the model uses for a calculator struct, computed from the source facts:
 declared field names, the borrower's type, the type of the storage field the pointers point into,
-and the crate's `impl Drop` list (any `Drop` impl is conservatively taken to dereference). -/
+and the crate's `impl Drop` list with bodies (any `Drop` impl other than the reviewed ones is
+conservatively taken to dereference the borrower's pointers). -/
 def layoutOf (fields : List (String × String × String)) (borrower owner : String)
-    (storageTy : String) (dropImpls : List String) : Layout :=
+    (storageTy : String) (dropBodies : List (String × String)) : Layout :=
   { order := orderOf (fields.map (·.2.1)) borrower owner
     holderBoxed := (fields.filter (·.2.1 == borrower)).any (boxedBorrowerTypes.contains ·.2.2)
-    glueDerefs := !dropImpls.isEmpty
+    glueDerefs := !(dropBodies.filter fun d => !reviewedDrops.contains d).isEmpty
     ownerInline := !(heapStorageTypes.contains storageTy) }
 
 end Rosu.Lifetime
